@@ -1214,6 +1214,8 @@ pub fn string_match(
                     }
                 }
                 let guard = interp.heap.create_guard();
+                let groups =
+                    super::regexp::match_groups(interp, &guard, &re.capture_names(), &result);
                 let arr = interp.create_array_from(&guard, result);
 
                 // Add index property
@@ -1225,6 +1227,8 @@ pub fn string_match(
                 let input_key = PropertyKey::String(interp.intern("input"));
                 arr.borrow_mut()
                     .set_property(input_key, JsValue::String(JsString::from(s)));
+                let groups_key = PropertyKey::String(interp.intern("groups"));
+                arr.borrow_mut().set_property(groups_key, groups);
 
                 Ok(Guarded::with_guard(JsValue::Object(arr), guard))
             }
@@ -1301,7 +1305,13 @@ pub fn string_match_all(
                 None => match_result.push(JsValue::Undefined),
             }
         }
+        let names: Vec<Option<String>> = re
+            .capture_names()
+            .map(|name| name.map(|n| n.to_string()))
+            .collect();
+        let groups = super::regexp::match_groups(interp, &guard, &names, &match_result);
         let arr = interp.create_array_from(&guard, match_result);
+        let groups_key = PropertyKey::String(interp.intern("groups"));
 
         // Add index property
         let index_key = PropertyKey::String(interp.intern("index"));
@@ -1313,6 +1323,7 @@ pub fn string_match_all(
         let input_key = PropertyKey::String(interp.intern("input"));
         arr.borrow_mut()
             .set_property(input_key, JsValue::String(JsString::from(s.clone())));
+        arr.borrow_mut().set_property(groups_key, groups);
 
         all_matches.push(JsValue::Object(arr));
     }
